@@ -22,10 +22,15 @@ def tifa_analysis(code=None, report=MAIN_REPORT):
     """
     if code is None:
         code = report.submission.main_code
-    if code in report[TIFA_TOOL_NAME]['analyses']:
-        return report[TIFA_TOOL_NAME]['analyses'][code]
+    # The same text at another place of the file (two sections that read the
+    # same) is another analysis: its issues are on other lines
+    submission = report.submission
+    line_offset = submission.line_offsets.get(submission.main_file, 0) if submission else 0
+    key = code if not line_offset else (code, line_offset)
+    if key in report[TIFA_TOOL_NAME]['analyses']:
+        return report[TIFA_TOOL_NAME]['analyses'][key]
     result = report[TIFA_TOOL_NAME]['instance'].process_code(code)
-    report[TIFA_TOOL_NAME]['analyses'][code] = result
+    report[TIFA_TOOL_NAME]['analyses'][key] = result
     report[TIFA_TOOL_NAME]['latest'] = result
     return result
 
